@@ -68,10 +68,14 @@ fn run_pair(run: &mut Run, u: &mut U, sa: &[AI], sb: &[AI], mutant: u32) {
     let oa0 = u.obs(&a0);
     let o0b = u.obs(&zb);
     let (e1, e2, e3) = (a0 == a, zb == b, sum == acc);
+    // (class computed on the unperturbed observation)
+    let ncal = |o: &Obs| o.0.iter().filter(|x| matches!(x, AI::Calib { .. } | AI::MeasureCalib { .. })).count();
+    let replaced = ncal(&oab) < ncal(&oa) + ncal(&ob);
+    let missing = oa.1.iter().chain(ob.1.iter()).any(|q| !oab.1.contains(q));
     mutate(mutant, &oa, &ob, &mut oab);
 
     let coq = format!(
-        "({}, {}, ({}, {}, {}, {}, {}, {}), ({}, {}, {}))",
+        "{}, {}, ({}, {}, {}, {}, {}, {}), ({}, {}, {}))",
         u.coq_list(sa),
         u.coq_list(sb),
         u.coq_obs(&oa),
@@ -90,9 +94,18 @@ fn run_pair(run: &mut Run, u: &mut U, sa: &[AI], sb: &[AI], mutant: u32) {
     let nontrivial = !sa.is_empty() && !sb.is_empty() && rebinding;
     run.count(if rebinding { "rebinding" } else { "disjoint-keys" });
     run.count(&format!("lenA={}", sa.len().min(9)));
-    let all: Vec<AI> = sa.iter().chain(sb.iter()).cloned().collect();
-    let known = pending_tag(&all);
-    run.case(coq, &desc, nontrivial, known);
+    // known class union-after-calibration-replacement: a calibration of A was replaced by B (the
+    // implementation's own calibration-count test, on the observed listings) and some qubit of
+    // used(A) U used(B) is missing from used(A+B)
+    if replaced {
+        run.count("calibration-replaced");
+    }
+    let known = if replaced && missing { Some("union-after-calibration-replacement") } else { None };
+    if known.is_some() {
+        // still compared with the model, untagged
+        run.case(format!("(0, {coq}"), &format!("corr {desc}"), nontrivial, None);
+    }
+    run.case(format!("(1, {coq}"), &desc, nontrivial, known);
 }
 
 fn main() {
